@@ -99,6 +99,12 @@ def model_targets():
     return [n + ".vo" for n in (m.group(1).split() if m else [])]
 
 
+def listed_props(files):
+    """the Properties files of a check that are part of the development (listed in _CoqProject and present)"""
+    listed = set(open(os.path.join(COQ, "_CoqProject")).read().split())
+    return [f for f in files if f in listed and os.path.exists(os.path.join(COQ, f))]
+
+
 def forbidden_scan():
     """every .v file of the development (= listed in _CoqProject, plus the extraction files) is scanned; a file that is not
     listed is not part of the development: nothing listed can depend on it, because only listed files are ever compiled by make"""
